@@ -250,6 +250,59 @@ def depth(x, p):
                 info='token %d: %d spaces, depth %d' % (j, n, depths[i]))
 
 
+CANON = [
+    'do\nx=1\n--[[c]]\nend\nif a then\nb()\n-- c\nelse\nc()\n--[[d]]\nend\n'
+    'repeat\nx=1\n-- u\nuntil x\nif (a) b=1 --[[e]]\nif (a) b=1 -- f\n-- last',
+    '-- first\nx=1\n\n\n\ny=2 -- t\nfunction f(a,\nb)\nreturn a\nend\n\n',
+    'x=1\ny=2',
+    '--[[ only ]]\n// comments\n\n-- here\n',
+    't={\n1,\n2, -- c\n}\nwhile t do\nt=nil\n// d\nend\n?t\n',
+]
+
+
+def canon(x, p):
+    """The property on whole programs: the same program with every line
+    given (symbolic) leading and trailing blanks or tabs formats to the same
+    text as the tidy one; that text has no line ending in white space, at
+    most one blank line in a row, none at the end, and formatting it again
+    changes nothing."""
+    src = p['src'].encode('latin-1')
+    n1 = x.choice('lead.n', [0, 1, 2])
+    n2 = x.choice('trail.n', [0, 1, 2])
+    lead = x.bytes('lead', n1)
+    trail = x.bytes('trail', n2)
+    for c in list(lead) + list(trail):
+        x.assume(Or(c == 32, c == 9))
+    lines = src.split(b'\n')
+    messy = b'\n'.join(lead + ln + trail for ln in lines)
+    width = p.get('width', 2)
+
+    def fmt(text):
+        prog = lua.Lua.from_lines([text], version=8)
+        return b''.join(prog.to_lines(writer_cls=lua.LuaFormatterWriter,
+                                      writer_args={'indentwidth': width}))
+    try:
+        tidy = fmt(src)
+        out = fmt(messy)
+    except Exception as e:
+        x.check('luafmt works on the program', False, info=repr(e)[:120])
+        return
+    x.out('out', out)
+    x.check('the output does not depend on blanks at the start or end of '
+            'input lines', out == tidy)
+    olines = tidy.split(b'\n')
+    x.check('no output line ends in white space', not any(
+        ln[-1:] in (b' ', b'\t', b'\r') for ln in olines))
+    x.check('at most one blank line in a row', b'\n\n\n' not in tidy)
+    x.check('no blank line at the end', not tidy.endswith(b'\n\n'))
+    try:
+        again = fmt(tidy)
+    except Exception as e:
+        x.check('formatted code formats again', False, info=repr(e)[:120])
+        return
+    x.check('formatting formatted code changes nothing', again == tidy)
+
+
 def widths(x, p):
     """One Lua object formatted twice with two indent widths (a user trying
     several --indentwidth values from a script): each output is what a
@@ -301,3 +354,5 @@ HARNESSES.append(
 from props import C09 as _C09
 HARNESSES.append(Harness('cli', _C09.cli, quick=[Q]))
 HARNESSES.append(Harness('widths', widths, quick=[Q]))
+HARNESSES.append(Harness('canon', canon,
+                         quick=[dict(Q, src=s_) for s_ in CANON]))
